@@ -218,6 +218,19 @@ example : readComment true (sanitizeComment (· == ' ') "-- # // {# */".toList +
     = some (sanitizeComment (· == ' ') "-- # // {# */".toList, " x".toList) :=
   comment_read_back _ (by decide) (by decide) true _ _ (by decide)
 
+/-- Why BOTH markers must be broken up, whatever the WRITER's dialect thinks about nesting: the reader decides.  A comment
+    text that keeps an opening marker (` a/*b `, as when only `*/` is sanitised: `see s3://bucket/*/part`) is read back by a reader without
+    nested comments, but a reader WITH nested comments (e.g. the routing pass of Athena's tokenizer in front of the
+    Trino sub-tokenizer) opens a nested comment that never closes — while the fully sanitised text reads back under
+    both readers (`comment_read_back`, for every `nested`). -/
+theorem comment_open_marker_needs_breaking :
+    scanCL false [' ', 'a', '/', '*', 'b', ' ', '*', '/', ',', 'b'] = some [',', 'b']
+    ∧ scanCL true [' ', 'a', '/', '*', 'b', ' ', '*', '/', ',', 'b'] = none
+    ∧ (∀ nested, readComment nested (sanitizeComment (· == ' ') ['a', '/', '*', 'b'] ++ '*' :: '/' :: [',', 'b'])
+        = some (sanitizeComment (· == ' ') ['a', '/', '*', 'b'], [',', 'b'])) := by
+  refine ⟨by decide +kernel, by decide +kernel, fun nested => ?_⟩
+  exact comment_read_back _ (by decide) (by decide) nested _ _ (by simp)
+
 /-- Raw strings (r'…', one-character delimiter) as the TOKENIZER reads them: a value that contains neither the delimiter
     nor — where STRING_ESCAPES_ALLOWED_IN_RAW_STRINGS — an escape character is read back verbatim.  (The generator never
     writes raw syntax: `rawstring_sql` writes a plain literal, see `raw_roundtrip`.) -/
